@@ -81,6 +81,8 @@ def _discover_chunk(frags):
         g["tie"] = tie
         g["src"] = sorted(src)
         g["ntok"] = sum(len(v) for v in by_span.values())
+        g["ned"] = max([len(tuple(t.exact_editions) + tuple(t.variation_editions))
+                        for v in by_span.values() for t in v if isinstance(t, CitationToken)] or [0])
         out.append(g)
     return out
 
